@@ -156,12 +156,12 @@ def vh(ctx, family, scenarios, extra=None, timeout=1800, race=False, env=None, n
         if not resilient:
             raise Infra("vh %s exited %d:\n%s" % (family, p.returncode, p.stderr[-4000:]))
         crashes += 1
-        starts = [e for e in part if e.get("e") == "start"]
+        starts = [e for e in part if e.get("e") in ("start", "begin")]
         if not starts or crashes > 40:
             raise Infra("vh %s keeps dying (%d crashes):\n%s" % (family, crashes, p.stderr[-3000:]))
         t = starts[-1]["t"]
         # keep everything up to and including the last start, then record the death
-        cut = max(i for i, e in enumerate(part) if e.get("e") == "start" and e["t"] == t)
+        cut = max(i for i, e in enumerate(part) if e.get("e") in ("start", "begin") and e["t"] == t)
         part = part[:cut + 1]
         head = p.stderr.strip().splitlines()
         msg = next((l for l in head if l.startswith(("panic:", "fatal error:"))), head[0] if head else "")
